@@ -360,6 +360,51 @@ def simulate(name, want, seed, scratch):
 PFX_FORMATS = ["%Y-%m-%d %H:%M:%S", "%H:%M:%S", "[%d/%b/%Y:%H:%M:%S]", "%Y%m%dT%H%M%S"]
 
 
+def replay_prefix(case, workdir=None, FS=None):
+    """Re-run one recorded time_format case (kind "c20-prefix") on the real FileStream -> failure text or None."""
+    import tempfile
+    FS = FS or _filestream()
+    own = workdir is None
+    if own:
+        workdir = tempfile.mkdtemp(prefix="c20-replay-")
+    d = os.path.join(workdir, "p")
+    os.makedirs(d, exist_ok=True)
+    try:
+        fmt, M, N = case["time_format"], case["max_bytes"], case["backup_count"]
+        now = datetime.fromisoformat(case["now"])
+        pids = case.get("pids") or [case["pid"]]
+        s = FS(filename=os.path.join(d, NAME), max_bytes=M, backup_count=N, time_format=fmt)
+        s.now = lambda: now
+        allowed = set([now.strftime(fmt)])
+        for w in case["writes"]:
+            if w == "reopen":
+                s.close()
+                s.open()
+                continue
+            data = w["data"].encode() if w.get("bytes") else w["data"]
+            msg = {"data": data, "pid": w.get("pid", case["pid"]), "name": "stdout"}
+            if w.get("timestamp") is not None:
+                msg["timestamp"] = w["timestamp"]
+                allowed.add(datetime.fromtimestamp(w["timestamp"]).strftime(fmt))
+            s(msg)
+        s.close()
+        tagged = "pids" in case
+        for fn, content in sorted(read_dir(d).items()):
+            if content and not content.endswith(b"\n"):
+                return "%s does not end with a newline under time_format" % fn
+            for ln, line in enumerate(content.decode("utf8").split("\n")[:-1]):
+                ok = any(line.startswith(("%s [%d] | P%d:" % (ts, p_, p_)) if tagged else ("%s [%d] | " % (ts, p_)))
+                         for ts in allowed for p_ in pids)
+                if not ok:
+                    return "line %d of %s does not carry the '<timestamp> [pid] | ' prefix of its write: %r" % (ln + 1, fn, line)
+        return None
+    finally:
+        if own:
+            shutil.rmtree(workdir, ignore_errors=True)
+        else:
+            shutil.rmtree(d, ignore_errors=True)
+
+
 def prefix_case(FS, rng, workdir):
     """One seeded case: multi-line payloads through a FileStream with time_format; every line of every file
     must start with '<timestamp> [pid] | '.  -> None or (what, replay)"""
